@@ -80,20 +80,22 @@ func wildcardMatch(pat []byte, str []byte) bool {
 		if len(pat) == 0 {
 			return len(str) == 0
 		}
-		if len(str) == 0 {
-			return false
-		}
 
 		if pat[0] == '*' {
 			if len(pat) == 1 {
 				return true
 			}
 
-			for j := range str {
+			// '*' matches any run of characters, including the empty one.
+			for j := 0; j <= len(str); j++ {
 				if wildcardMatch(pat[1:], str[j:]) {
 					return true
 				}
 			}
+			return false
+		}
+
+		if len(str) == 0 {
 			return false
 		}
 
